@@ -26,7 +26,7 @@ def cases(draw, nums=("frac",), pmax=4):
     PV = draw(gen.ctrlpoints(len(V) - q - 1, 0))
     return {"U": U, "p": p, "V": V, "q": q, "PU": PU, "PV": PV,
             "num": draw(st.sampled_from(list(nums))),
-            "shift": draw(st.sampled_from([None, None, None, F(1), F(-1, 2)])),
+            "shift": draw(st.sampled_from([None, None, None, F(1), F(-1, 2), "inside-left", "inside-right", "inside"])),
             "raw": draw(st.booleans())}
 
 
@@ -52,9 +52,16 @@ def check(case, out):
     klass = ("different-degree" if diffdeg else "same-degree") + (";interior" if (bu or bv) else ";bezier")
 
     if case["shift"] is not None:
-        V2 = lib.KnotVector([v + lib.conv_knot(case["shift"], num) for v in V])
-        out.cls("different-interval")
-        for name, fn in (("|", lambda: KU | V2), ("&", lambda: KU & V2)):
+        if isinstance(case["shift"], str):
+            # V squeezed onto a sub-interval of U's interval (contained, sharing an end or strictly inside)
+            a0, b0 = fV[0], fV[-1]
+            lo = {"inside-left": F(0), "inside-right": F(1, 2), "inside": F(1, 4)}[case["shift"]]
+            hi = {"inside-left": F(1, 2), "inside-right": F(1), "inside": F(3, 4)}[case["shift"]]
+            V2 = lib.KnotVector([lib.conv_knot(a0 + (b0 - a0) * (lo + (hi - lo) * (v - a0) / (b0 - a0)), num) for v in fV])
+        else:
+            V2 = lib.KnotVector([v + lib.conv_knot(case["shift"], num) for v in V])
+        out.cls("different-interval", "interval=" + str(case["shift"] if isinstance(case["shift"], str) else "shifted"))
+        for name, fn in (("|", lambda: KU | V2), ("&", lambda: KU & V2), ("r|", lambda: V2 | KU), ("r&", lambda: V2 & KU)):
             try:
                 r = fn()
                 out.fail("different-interval-accepted", klass, f"{list(KU)} {name} {list(V2)} returned {list(r)}")
